@@ -157,9 +157,19 @@ def _kv_case(case, ctx):
 def _generate_case(case, ctx):
     from geomdl import knotvector
     p, n, clamped = case['p'], case['n'], case['clamped']
-    kv = knotvector.generate(p, n, clamped=clamped)
     ctx.state(case, nontrivial=n > p + 1)
-    feats = dict(p=p, n=n, clamped=clamped)
+    for second in (False, True):
+        kv = knotvector.generate(p, n, clamped=clamped)
+        _judge_generated(case, ctx, kv, dict(p=p, n=n, clamped=clamped, second_call=second))
+        # the caller owns the returned list: scribbling on it must not influence the next call
+        kv.append(9.0)
+        kv[0] = -1.0
+        del kv[1]
+
+
+def _judge_generated(case, ctx, kv, feats):
+    from geomdl import knotvector
+    p, n, clamped = case['p'], case['n'], case['clamped']
     ctx.check('C03.generate.length', len(kv) == n + p + 1, case, feats, n + p + 1, len(kv))
     ctx.check('C03.generate.valid', knotvector.check(p, kv, n) is True, case, feats, True, None)
     if clamped:
@@ -193,8 +203,11 @@ def _normalize_case(case, ctx):
     ctx.state(case, nontrivial=True)
     for a, s in A.AFFINE:
         raw = A.affine_kv(kv, a, s)
+        first = knotvector.normalize(raw)
+        first.append(5.0)            # the caller owns the result
         out = knotvector.normalize(raw)
         feats = dict(a=a, s=s)
+        ctx.check('C03.normalize.input_unchanged', raw == A.affine_kv(kv, a, s), case, feats)
         ctx.close('C03.normalize.values', out, kv, 1e-15, 1.0, case, feats)
         if len(out) == len(kv):
             ctx.check('C03.normalize.ends', out[0] == 0.0 and out[-1] == 1.0, case, feats, (0.0, 1.0), (out[0], out[-1]))
